@@ -128,6 +128,7 @@ pub enum Fault {
 impl Fault {
     pub fn label(&self) -> &'static str {
         match self {
+            Fault::Status(s) if *s < 400 => "status-3xx",
             Fault::Status(s) if *s < 500 => "status-4xx",
             Fault::Status(_) => "status-5xx",
             Fault::GrpcStatus(_) => "grpc-status",
@@ -679,7 +680,9 @@ fn decision_label(d: &Decision, transport: Transport) -> &'static str {
     match d {
         Decision::Ack => "ack",
         Decision::AckThenClose => "ack-then-close",
+        Decision::Status(s) if transport == Transport::Grpc && *s < 400 => "grpc-http-status-3xx",
         Decision::Status(_) if transport == Transport::Grpc => "grpc-http-status",
+        Decision::Status(s) if *s < 400 => "status-3xx",
         Decision::Status(s) if *s < 500 => "status-4xx",
         Decision::Status(_) => "status-5xx",
         Decision::GrpcStatus(_) => "grpc-status",
